@@ -48,7 +48,7 @@ fn parse_args() -> Args {
         replay_slot: None,
         worker: false,
         merge: false,
-        no_evidence: false,
+        no_evidence: std::env::var("VERIF_NO_EVIDENCE").as_deref() == Ok("1"),
     };
     let mut it = std::env::args().skip(1);
     while let Some(x) = it.next() {
